@@ -109,7 +109,9 @@ def gen_cases(rng, tier):
             elif v == "vector_negative":
                 c["cfg"]["score_vector"] = [str(x) for x in range(nc - 1, 0, -1)] + [rng.choice(["-1/1000000", "-3"])]
             elif v == "vector_increasing":
-                c["cfg"]["score_vector"] = ["1", rng.choice(["1000001/1000000", "5"])] + ["0"] * max(0, nc - 2)
+                c["cfg"]["score_vector"] = rng.choice([["1", rng.choice(["1000001/1000000", "5"])] + ["0"] * max(0, nc - 2),
+                                                       ["1", "0", rng.choice(["2", "1/1000000"])],     # the increase comes right after a zero
+                                                       ["0", "1"]])
             elif v == "vector_ok_flat":
                 c["cfg"]["score_vector"] = ["1"] * nc
             c["violation"] = v
